@@ -128,6 +128,7 @@ StepReadFrom(m, e) ==
               <<e.n <= e.total, "ReadFrom reports more than the source gave">>,
               <<~e.destFailed /\ e.srcErr = "eof" => e.err = "nil" /\ e.n = e.total, "ReadFrom must copy the source to EOF">>,
               <<~e.destFailed /\ e.srcErr # "eof" => e.err = e.srcErr, "ReadFrom must report the source's error">>,
+              <<~e.destFailed => e.n = e.total, "ReadFrom must account for every byte the source delivered (also those that came with the error)">>,
               <<fr.bad = "", fr.bad>>,
               <<m.noflush /\ ~e.destFailed => e.out = <<>>, "flush disabled: ReadFrom sent bytes">> >>),
            !.acc = acc2, !.sent = fr.sent, !.inmsg = fr.inmsg, !.failed = e.destFailed,
